@@ -6,10 +6,11 @@
 (*                                                                         *)
 (*  {ev:"mp", id, form, ins, main,           the scenario (written forms)  *)
 (*   texts, maintext, runs,                  what was handed to the crate  *)
-(*   obs: [{perm, n, status, res, main, resolved, err}],                   *)
+(*   obs: [{perm, n, status, res, main, dbg, dbgmain, resolved, err}],     *)
 (*        per permutation of the input list (perm[j] = index of the j-th   *)
 (*        input handed in) every DISTINCT outcome with its count n;        *)
-(*        res = the returned schemas, in the order returned, as terms      *)
+(*        res = the returned schemas, in the order returned, as terms;     *)
+(*        dbg = fingerprints of their complete Debug rendering             *)
 (*   dat: [{i, pa, pb, v, enc_ok, wire, dec_ok, dec, panic}]}              *)
 (*        value v encoded with schema i of ordering pa, decoded with       *)
 (*        schema i of ordering pb (i = 0: the main schema)                 *)
@@ -84,6 +85,10 @@ SameOutcome(o1, o2) ==
        /\ Len(o1.res) = Len(o2.res) /\ Len(o1.res) = Len(o1.perm) /\ Len(o2.res) = Len(o2.perm)
        /\ \A i \in 1..Len(o1.perm) : TermEq(o1.res[PosIn(o1.perm, i)], o2.res[PosIn(o2.perm, i)])
        /\ TermEq(o1.main, o2.main)
+       (* ... and on everything else the crate keeps in a schema (fingerprint of its Debug rendering) *)
+       /\ Len(o1.dbg) = Len(o1.perm) /\ Len(o2.dbg) = Len(o2.perm)
+       /\ \A i \in 1..Len(o1.perm) : o1.dbg[PosIn(o1.perm, i)] = o2.dbg[PosIn(o2.perm, i)]
+       /\ o1.dbgmain = o2.dbgmain
 
 (* the observation is the outcome r of the model (r.res is in canonical input order) *)
 IsOutcome(o, r) ==
